@@ -284,11 +284,24 @@ fn main() {
             crashes += 1;
         }
 
+        let corrupt = ev["st"]["alive"] == true && ev["st"]["trav"] == false;
+
         *per_op.entry(name).or_default() += 1;
         writeln!(out, "{}", ev).unwrap();
         // the code under test may bring the process down: keep the log complete
         out.flush().unwrap();
         if let Some(w) = script.as_mut() { writeln!(w, "{}", o).unwrap(); }
+
+        if corrupt {
+            // reported by the event above; nothing more can safely be executed
+            let fin = session.abandon();
+            writeln!(out, "{}", json!({"reset": true, "fin": fin, "leak_ok": true})).unwrap();
+            if let Some(w) = script.as_mut() { writeln!(w, "{}", json!({"reset": true, "leak_ok": true})).unwrap(); }
+            reg_reset();
+            session = Session::new(cfg.clone());
+            leaked = false;
+            in_segment = 0;
+        }
     }
 
     let fin = session.finish();
